@@ -10,8 +10,10 @@ import (
 
 	"github.com/nspcc-dev/neo-go/pkg/core/block"
 	"github.com/nspcc-dev/neo-go/pkg/core/transaction"
+	"github.com/nspcc-dev/neo-go/pkg/neotest"
 	"github.com/nspcc-dev/neo-go/pkg/smartcontract/callflag"
 	"github.com/nspcc-dev/neo-go/pkg/util"
+	"github.com/nspcc-dev/neo-go/pkg/vm/vmstate"
 )
 
 // Hop is one element of a requested call chain (shared with spec/flags/FlagsCases.tla).
@@ -301,6 +303,106 @@ func (d *driver) randomCases(n int) {
 	d.res.Inc("random_chains", n)
 }
 
+// blockCases: the persisted variant.  Chains are executed by real transactions in real blocks (the production
+// path: Blockchain.storeBlock -> interop context over the block's DAO); observed afterwards: the application log
+// (state, notifications of T) and the presence of a per-transaction key in T's storage.  No instruction hook here.
+func (d *driver) blockCases(rows []Row, sample int) {
+	v := d.v
+	t := v.t
+	var sel []Row
+	for _, r := range rows {
+		if len(r.Chain) == 1 || (len(r.Chain) == 2 && (sample < 0 || d.rnd.Intn(1024) < sample)) {
+			sel = append(sel, r)
+		}
+	}
+	type pend struct {
+		row Row
+		op  string
+		key []byte
+		tx  *transaction.Transaction
+	}
+	var batch []pend
+	tid := v.bc.GetContractState(v.T.Hash).ID
+	flush := func() {
+		if len(batch) == 0 {
+			return
+		}
+		txs := make([]*transaction.Transaction, len(batch))
+		for i := range batch {
+			txs[i] = batch[i].tx
+		}
+		v.e.AddNewBlock(t, txs...)
+		for _, p := range batch {
+			aer := v.e.GetTxExecResult(t, p.tx.Hash())
+			halt := aer.VMState.HasFlag(vmstate.Halt)
+			nT := 0
+			for _, ev := range aer.Events {
+				if ev.ScriptHash == v.T.Hash {
+					nT++
+				}
+			}
+			w := p.key != nil && v.bc.GetStorageItem(tid, p.key) != nil
+			d.tr.Emit(map[string]any{"event": "inv", "src": "blk", "op": p.op, "root": 15, "chain": p.row.Chain, "frames": []Frame{}, "eff": []Effect{},
+				"w": w, "n": nT > 0, "c": p.op == "call" && halt, "t": halt, "halt": halt})
+			d.res.Count([]any{"blk", p.op, p.row.Chain, w, nT, halt})
+			d.res.Traces++
+			var pred, got bool
+			switch p.op {
+			case "putk":
+				pred, got = p.row.Lput, w
+			case "notify":
+				pred, got = p.row.Notify, nT > 0
+			case "call":
+				pred, got = p.row.Call, halt
+			}
+			if got {
+				d.res.Inc("block_effect_"+p.op, 1)
+			}
+			if pred != got {
+				d.res.Inc("drift", 1)
+				d.res.AddDrift(map[string]any{"src": "blk", "op": p.op, "chain": p.row.Chain, "predicted": pred, "observed": got, "fault": aer.FaultException})
+			}
+		}
+		batch = batch[:0]
+	}
+	n := 0
+	for _, row := range sel {
+		for _, op := range []string{"putk", "notify", "call"} {
+			m := op
+			if row.Chain[len(row.Chain)-1].S {
+				m += "S"
+			}
+			var hops []hop
+			for i, h := range row.Chain[:len(row.Chain)-1] {
+				p := v.P1
+				if i%2 == 1 {
+					p = v.P2
+				}
+				pm := "call"
+				if h.S {
+					pm = "scall"
+				}
+				hops = append(hops, hop{p.Hash, pm, h.Q})
+			}
+			var args []any
+			var key []byte
+			if op == "putk" {
+				key = []byte(fmt.Sprintf("b%d", n))
+				args = []any{key}
+			}
+			n++
+			script := chainScript(hops, v.T.Hash, m, row.Chain[len(row.Chain)-1].Q, args)
+			tx := v.e.PrepareInvocation(t, script, []neotest.Signer{v.com}, v.bc.BlockHeight()+1)
+			batch = append(batch, pend{row, op, key, tx})
+			if len(batch) >= 40 {
+				flush()
+			}
+		}
+	}
+	flush()
+	d.res.Inc("block_transactions", n)
+}
+
 func TestDriver(t *testing.T) {
 	res := vh.NewResult()
 	tr := vh.NewTrace("trace.ndjson")
@@ -318,6 +420,7 @@ func TestDriver(t *testing.T) {
 	d.sysCases()
 	d.natCases()
 	d.randomCases(vh.EnvInt("VERIF_RANDOM", 2000))
+	d.blockCases(rows, vh.EnvInt("VERIF_BLOCK_SAMPLE", 100))
 	tr.Close()
 	var pcs []PermCase
 	if vh.InDir() != "" {
